@@ -380,6 +380,10 @@ FUNCS = {
 }
 
 
+import operator as _op
+_CMP_FUNCS = {'<': _op.lt, '>': _op.gt, '<=': _op.le, '>=': _op.ge, '==': _op.eq, '!=': _op.ne}
+
+
 class ReadLog(list):
     pass
 
@@ -418,7 +422,7 @@ def eval_expr(e, read, env=None):
             return l / r
         if e.op == '**':
             return l ** r
-        return {'<': l < r, '>': l > r, '<=': l <= r, '>=': l >= r, '==': l == r, '!=': l != r}[e.op]
+        return _CMP_FUNCS[e.op](l, r)      # only the comparison written (complex values support == and != only)
     raise AssertionError(e)
 
 
